@@ -32,6 +32,9 @@ type Case struct {
 	// JSONOnly: the JSON text uses spellings that have no YAML counterpart byte for byte (raw DEL /
 	// C1 / non-characters, surrogate-pair escapes): only the JSON entry points are exercised
 	JSONOnly bool `json:"json_text_only,omitempty"`
+	// Installed: a history of schema.Set calls ("initial" = nothing installed yet); after every step the
+	// package-level entry points must give the verdict of the schema installed last
+	Installed []string `json:"history_of_installed_schemas,omitempty"`
 	// the document an in-memory Spec decoded from Doc denotes (for ValidateType / Validate)
 	typedJSON   string
 	typedOracle *bool
@@ -212,6 +215,49 @@ func eval(c Case, sc schemas, dir string) hx.Result {
 			out = "valid"
 		}
 		return hx.Result{Outcome: "agree:" + out, Nontrivial: true}
+	})
+}
+
+// evalInstalled: the package-level entry points (schema.ValidateData, ...) validate with the schema
+// installed last by schema.Set; the builtin one before anything is installed. Runs alone (the
+// installed schema is process-wide state).
+func evalInstalled(c Case, sc schemas, dir string) hx.Result {
+	return hx.Guard("", c, func() hx.Result {
+		defer schema.Set(sc.builtin)
+		if c.Oracle == nil {
+			return hx.Result{Outcome: "oracle-gave-no-verdict", Nontrivial: false}
+		}
+		j := []byte(c.JSON)
+		jsonPath := filepath.Join(dir, "doc.json")
+		_ = os.WriteFile(jsonPath, j, 0o644)
+		setters := map[string]*schema.Schema{"builtin": sc.builtin, "none": sc.none, "nil": nil, "external-copy": sc.external}
+		for step, name := range c.Installed {
+			want := *c.Oracle
+			if name != "initial" {
+				schema.Set(setters[name])
+				if name == "none" || name == "nil" {
+					want = true
+				}
+			}
+			_, rerr := schema.ReadAndValidate(bytes.NewReader(j))
+			got := map[string]error{"ValidateData": schema.ValidateData(j), "ValidateFile": schema.ValidateFile(jsonPath), "ValidateReader": schema.ValidateReader(bytes.NewReader(j)), "ReadAndValidate": rerr}
+			for _, ep := range []string{"ValidateData", "ValidateFile", "ValidateReader", "ReadAndValidate"} {
+				if verdictOf(got[ep]) != want {
+					return hx.Result{Outcome: "FAIL", Nontrivial: true, Fail: &hx.Failure{Sig: fmt.Sprintf("installed-schema:%s:after-%s:package-level-%s=%v", name, strings.Join(c.Installed[:step], ","), ep, verdictOf(got[ep])),
+						Msg:  fmt.Sprintf("after installing %v the package-level %s gives %v (%v); the schema installed last (%s) gives %v", c.Installed[:step+1], ep, verdictOf(got[ep]), got[ep], name, want),
+						Case: c, Expected: want, Actual: verdictOf(got[ep]), Rank: int64(len(c.Installed)*100000 + len(c.JSON))}}
+				}
+			}
+			if c.typed != nil && c.typedOracle != nil {
+				wt := *c.typedOracle || name == "none" || name == "nil"
+				if err := schema.ValidateType(c.typed); verdictOf(err) != wt {
+					return hx.Result{Outcome: "FAIL", Nontrivial: true, Fail: &hx.Failure{Sig: fmt.Sprintf("installed-schema:%s:after-%s:package-level-ValidateType=%v", name, strings.Join(c.Installed[:step], ","), verdictOf(err)),
+						Msg:  fmt.Sprintf("after installing %v the package-level ValidateType gives %v; the schema installed last gives %v", c.Installed[:step+1], verdictOf(err), wt),
+						Case: c, Expected: wt, Actual: verdictOf(err), Rank: int64(len(c.Installed)*100000 + len(c.JSON))}}
+				}
+			}
+		}
+		return hx.Result{Outcome: fmt.Sprintf("installed-schema-history-agrees:len=%d", len(c.Installed)), Nontrivial: true}
 	})
 }
 
@@ -408,6 +454,11 @@ func main() {
 	if err := sc.builtin.ValidateData([]byte(`{}`)); err == nil {
 		r.Fail(&hx.Failure{Sig: "builtin-schema-accepts-empty-object", Msg: "the builtin schema accepts {}: it is (or fell back to) a no-op schema", Case: "{}"})
 	}
+	if r.Replay != "" && len(cases[0].Installed) > 0 {
+		res := evalInstalled(cases[0], sc, base)
+		os.RemoveAll(base)
+		hx.ReplayExit("C17", res)
+	}
 	if r.Replay != "" {
 		res := eval(cases[0], sc, base)
 		os.RemoveAll(base)
@@ -428,8 +479,66 @@ func main() {
 			return map[string]any{"base": cases[i].Base, "mutations": cases[i].Mutations, "oracle_valid": cases[i].Oracle, "outcome": res.Outcome}
 		})
 	})
+	// histories of installed schemas (process-wide state: run one at a time, after the sweep)
+	var picked []Case
+	nValid, nInvalid := 0, 0
+	for _, c := range cases {
+		_, isObj := c.Doc.(map[string]any)
+		if c.Oracle == nil || c.JSONOnly || !isObj || len(c.JSON) > 5000 || malformedAnnotations(c.Doc) {
+			continue
+		}
+		if *c.Oracle && nValid < 2 && c.typed != nil {
+			nValid++
+			picked = append(picked, c)
+		} else if !*c.Oracle && nInvalid < 6 && len(picked)%2 == 0 {
+			nInvalid++
+			picked = append(picked, c)
+		} else if !*c.Oracle && nInvalid < 6 && c.typed != nil {
+			nInvalid++
+			picked = append(picked, c)
+		}
+	}
+	var hist [][]string
+	names := []string{"builtin", "none", "nil", "external-copy"}
+	var rec func(cur []string)
+	rec = func(cur []string) {
+		if len(cur) > 0 {
+			hist = append(hist, append([]string{}, cur...))
+		}
+		if len(cur) == 3 {
+			return
+		}
+		for _, n := range names {
+			rec(append(cur, n))
+		}
+	}
+	rec([]string{"initial"})
+	nInst := 0
+	for _, h := range hist {
+		for _, c := range picked {
+			c.Installed = h
+			res := evalInstalled(c, sc, base)
+			nInst++
+			r.AddEvals(1, 1)
+			r.Outcome(res.Outcome)
+			if res.Fail != nil {
+				r.Fail(res.Fail)
+			}
+			if strings.HasPrefix(h[0], "initial") && len(h) > 1 {
+				// the same history without the untouched initial state in front
+				c.Installed = h[1:]
+				if res := evalInstalled(c, sc, base); res.Fail != nil {
+					r.Fail(res.Fail)
+				}
+				nInst++
+				r.AddEvals(1, 1)
+			}
+		}
+	}
+	r.Extra["installed_schema_histories"] = map[string]any{"histories": len(hist), "documents": len(picked), "evaluations": nInst}
 	r.Rule = fmt.Sprintf("%d base documents + every single defect, every type confusion at every member position and 11 numeric boundary values (-1, 2^32-1, 2^32, int64 max, 2^63, int64 min, below, 1.5, 1.0, 1e3, 0) at every member position: %d JSON documents (+%d documents denoted by the in-memory Specs they decode to); "+
 		"each through ValidateData (JSON, YAML flow, YAML block), ValidateFile (.json, .yaml), ValidateReader, ReadAndValidate, ValidateType/Validate for the builtin schema and for a copy of schema.json loaded by path next to defs.json, and through the 'none' and nil schemas. "+
+		"Then every history of <=3 schema.Set calls over {builtin, none, nil, external copy} (and the untouched initial state) with the package-level entry points judged after every step against the schema installed last, on 8 documents. " +
 		"Oracle: Python jsonschema Draft7Validator on the current /repo/schema files; JSON==YAML for every document; equality with the oracle when annotations are absent or well-formed; no-op schemas accept everything. Distinct by construction; all non-trivial",
 		len(bases), len(cases), nTyped)
 	r.Traces.Add(int64(len(cases) + nTyped))
